@@ -43,7 +43,8 @@ type Event struct {
 	JV   Res    `json:"jv"`
 }
 
-const errKey = "__c08_error__"
+// every output is serialised INSIDE the try (lazy values such as binaries can fail only when they are read)
+const errMark = "\x00c08-error"
 
 // program: one jq program evaluating every query on `.` and on `tovalue`
 func program(qs []Query, prelude string) string {
@@ -57,7 +58,7 @@ func program0(qs []Query) string {
 		if i > 0 {
 			sb.WriteString(",\n")
 		}
-		fmt.Fprintf(&sb, "  [try (%s) catch {%q: true}]", q.Text, errKey)
+		fmt.Fprintf(&sb, "  [try ((%s) | tojson) catch %s]", q.Text, jqString(errMark))
 	}
 	sb.WriteString("\n];\n")
 	return sb.String()
@@ -105,6 +106,11 @@ func parseJ(dec *json.Decoder) J {
 	return J{}
 }
 
+func jqString(s string) string {
+	b, _ := json.Marshal(s)
+	return string(b)
+}
+
 func parseLine(line string) J {
 	dec := json.NewDecoder(strings.NewReader(line))
 	dec.UseNumber()
@@ -114,11 +120,14 @@ func parseLine(line string) J {
 func toRes(j J) Res {
 	r := Res{Out: []J{}}
 	for _, o := range j.E {
-		if o.T == "obj" && len(o.K) == 1 && o.K[0] == errKey {
+		if o.T != "str" {
+			kit.Fatalf("unexpected output element %s", o.T)
+		}
+		if o.S == errMark {
 			r.Err = true
 			break
 		}
-		r.Out = append(r.Out, o)
+		r.Out = append(r.Out, parseLine(o.S))
 	}
 	return r
 }
